@@ -83,6 +83,7 @@ def planeroute(run, fx):
     # --- DirectCmap::operator[]
     d = fx.one('graphite2::DirectCmap::operator[]')
     conds = [e for _, e in d.elements() if e['k'] == 'ConditionalOperator']
+    usv = d.f['params'][0]['n']
     routes = set()
     split = None
     for b in d.blocks:
@@ -91,7 +92,7 @@ def planeroute(run, fx):
             continue
         for a, p in dom.atoms(d, c, True):
             t = dom.norm(d, a, p)
-            if t[0] == 'usv' and t[1] == '>' and t[2] == '65535':
+            if t[0] == usv and t[1] == '>' and t[2] == '65535':
                 split = (b, t)
     if split is None:
         run.violated('PLANEROUTE', 'DirectCmap plane split', d.where(), 'DirectCmap::operator[] no longer splits on usv > 0xFFFF')
@@ -99,8 +100,8 @@ def planeroute(run, fx):
         fq = e.get('fq') or ''
         if fq.endswith('CmapSubtable12Lookup') or fq.endswith('CmapSubtable4Lookup'):
             fs = dom.facts_at(d, e['i'])
-            hi = any(f[:3] == ('usv', '>', '65535') for f in fs)
-            lo = any(f[:3] == ('usv', '<=', '65535') for f in fs)
+            hi = any(f[:3] == (usv, '>', '65535') for f in fs)
+            lo = any(f[:3] == (usv, '<=', '65535') for f in fs)
             tbl = d.render(d.N(e['args'][0]))
             routes.add(('SMP' if hi else 'BMP' if lo else 'ANY', 12 if '12' in fq else 4, tbl.split('->')[-1]))
     want = {('SMP', 12, '_smp'), ('BMP', 4, '_bmp')}
@@ -135,15 +136,46 @@ def planeroute(run, fx):
     # --- cache_subtable body: starts from `start`, stores only under codePoint < limit
     for f in fx.fns_named('cache_subtable'):
         tag = '12' if 'Subtable12' in f.qt else '4'
-        _, dd = find_decl(f, 'codePoint')
-        ps = [p['n'] for p in f.f['params']]
-        init = f.render(dd['init']) if dd and dd.get('init') is not None else ''
-        okstart = 'start' in ps and ('(cst, start,' in init.replace('  ', ' ') or ', start, ' in init)
-        stores = [e for _, e in f.elements() if e['k'] == 'BinaryOperator' and e['op'] == '=' and 'blocks[block][' in f.render(f.N(e['c'][0]))]
-        okstore = bool(stores) and all(any(x[:3] == ('codePoint', '<', 'limit') for x in dom.facts_at(f, s['i'])) for s in stores)
+        ps = f.f['params']
+        if len(ps) != 4:
+            run.broken('PLANEROUTE', 'cache_subtable<%s> window' % tag, 'cache_subtable no longer has the 4 parameters (blocks, subtable, start, limit): re-confirm', f.where())
+            continue
+        pv = [p['vid'] for p in ps]
+        vids_in = lambda n: {x.get('vid') for x in f.walk(n) if x['k'] == 'DeclRefExpr' and x.get('vid') is not None}
+        # the code point variable: the local compared `< limit` by the loop condition
+        cpv = None
+        for b in f.blocks:
+            c = f.term_cond(b)
+            if c is None:
+                continue
+            c = f.strip_all_casts(c)
+            if c['k'] == 'BinaryOperator' and c['op'] == '<':
+                l, r = f.strip_all_casts(c['c'][0]), f.strip_all_casts(c['c'][1])
+                if r['k'] == 'DeclRefExpr' and r.get('vid') == pv[3] and l['k'] == 'DeclRefExpr' and l.get('vid') is not None:
+                    cpv, cpname = l['vid'], l['d'].split('::')[-1]
         inst = 'cache_subtable<%s> window' % tag
+        if cpv is None:
+            run.violated('PLANEROUTE', inst, f.where(), 'cache_subtable has no loop bounded by `<code point> < limit` (4th parameter): its stores are not confined to the window')
+            continue
+        dd = None
+        for _, e in f.elements():
+            if e['k'] == 'DeclStmt':
+                for d in e['decls']:
+                    if d.get('vid') == cpv:
+                        dd = d
+        iv = vids_in(dd['init']) if dd and dd.get('init') is not None else set()
+        okstart = pv[1] in iv and pv[2] in iv
+        stores = []
+        for _, e in f.elements():
+            if e['k'] == 'BinaryOperator' and e['op'] == '=':
+                lhs = f.strip_all_casts(e['c'][0])
+                if lhs['k'] == 'ArraySubscriptExpr':
+                    inner = f.strip_all_casts(lhs['c'][0])
+                    if inner['k'] == 'ArraySubscriptExpr' and pv[0] in vids_in(inner['c'][0]):
+                        stores.append(e)
+        okstore = bool(stores) and all(any(x[:3] == (cpname, '<', ps[3]['n']) for x in dom.facts_at(f, s['i'])) for s in stores)
         if okstart and okstore:
-            run.held('PLANEROUTE', inst, f.where(), 'first code point = Next(cst, start); stores dominated by codePoint < limit')
+            run.held('PLANEROUTE', inst, f.where(), 'first code point = Next(subtable, start); stores dominated by %s < %s' % (cpname, ps[3]['n']))
         else:
             run.violated('PLANEROUTE', inst, f.where(), 'cache_subtable does not confine its stores to (start, limit): start honoured %s, store guarded %s'
                          % (okstart, okstore))
@@ -161,9 +193,15 @@ def fallback(run, fx):
             run.violated('FALLBACK', inst, fn.where(), 'expected exactly one %s call, found %d' % (callee, len(cs)))
             continue
         fs = dom.facts_at(fn, cs[0]['i'])
-        ok = [f for f in fs if f[0] == 'gid' and f[1] == '==' and f[2] == '0']
-        # gid is the cmap result
-        _, d = find_decl(fn, 'gid')
+        # gid is the local holding the cmap result
+        d = None
+        for _, e in fn.elements():
+            if e['k'] == 'DeclStmt':
+                for dd in e['decls']:
+                    if dd.get('init') is not None and any((y.get('fq') or '').endswith('Cmap::operator[]') for y in fn.walk(dd['init'])):
+                        d = dd
+        gid = d['n'] if d else 'gid'
+        ok = [f for f in fs if f[0] == gid and f[1] == '==' and f[2] == '0']
         src = fn.render(d['init']) if d and d.get('init') is not None else ''
         if ok and 'operator[]' in src and 'cmap' in src:
             run.held('FALLBACK', inst, fn.loc(cs[0]), 'gid = cmap[usv]; findPseudo only under gid == 0')
@@ -174,15 +212,16 @@ def fallback(run, fx):
 
 def cmapbound(run, fx):
     op = fx.one('graphite2::CachedCmap::operator[]')
+    usv = op.f['params'][0]['n']
     reads = [e for _, e in op.elements() if e['k'] == 'ArraySubscriptExpr' and op.render(op.N(e['c'][0])) == 'this->m_blocks']
     if not reads:
         raise AnalysisBroken('CachedCmap::operator[]: m_blocks[...] access not found')
     for e in reads:
         fs = dom.facts_at(op, e['i'])
-        top = any(f[0] == 'usv' and f[1] == '<=' and f[2] == str(0x10FFFF) for f in fs)
+        top = any(f[0] == usv and f[1] == '<=' and f[2] == str(0x10FFFF) for f in fs)
         # (m_isBmpOnly && usv > 0xFFFF) == false, rendered as a compound or as its parts
         bmp = dom.must_pass(op, op.entry, op.block_of[e['i']],
-                            lambda f: f[:3] == ('this->m_isBmpOnly', '==', '0') or f[:3] == ('usv', '<=', '65535'))
+                            lambda f: f[:3] == ('this->m_isBmpOnly', '==', '0') or f[:3] == (usv, '<=', '65535'))
         inst = 'operator[] m_blocks access@%s:%s' % (e['ln'], e['col'])
         if top and bmp:
             run.held('CMAPBOUND', inst, op.loc(e), 'dominated by usv <= 0x10FFFF and !(m_isBmpOnly && usv > 0xFFFF)')
@@ -192,24 +231,36 @@ def cmapbound(run, fx):
                          'on a font without a format 12 sub-table reads far beyond the block table' % (top, bmp), {'facts': [f[:3] for f in fs]})
     c = fx.one('graphite2::CachedCmap::CachedCmap')
     al = [e for e in calls_in(c) if (e.get('fq') or '').startswith('graphite2::grzeroalloc')]
-    txt = c.render(al[0]['args'][0]) if al else ''
+    txt = c.render(al[0]['args'][0], resolve=True) if al else ''
     if 'm_isBmpOnly' in txt and '256' in txt and '4352' in txt:
         run.held('CMAPBOUND', 'block table size', c.loc(al[0]), txt)
     else:
         run.violated('CMAPBOUND', 'block table size', c.where(), 'm_blocks is allocated with `%s`, expected m_isBmpOnly ? 0x100 : 0x1100' % txt)
     st = [e for _, e in c.elements() if e['k'] == 'BinaryOperator' and e['op'] == '=' and c.render(c.N(e['c'][0])) == 'this->m_isBmpOnly']
-    if st and c.render(c.N(st[0]['c'][1])).replace(' ', '') in ('!smp_cmap',):
-        run.held('CMAPBOUND', 'm_isBmpOnly definition', c.loc(st[0]), 'm_isBmpOnly = !smp_cmap', False)
+    okdef = False
+    if st:
+        rhs = c.strip_all_casts(st[0]['c'][1])
+        if rhs['k'] == 'UnaryOperator' and rhs['op'] == '!':
+            x = c.strip_all_casts(rhs['c'][0])
+            # the negated operand is the local that holds smp_subtable()'s result (the same one the format 12 fill is guarded by)
+            if x['k'] == 'DeclRefExpr' and x.get('vid') is not None:
+                for _, e in c.elements():
+                    if e['k'] == 'DeclStmt':
+                        for d in e['decls']:
+                            if d.get('vid') == x['vid'] and d.get('init') is not None and \
+                                    any((y.get('fq') or '') == 'smp_subtable' for y in c.walk(d['init'])):
+                                okdef = True
+    if okdef:
+        run.held('CMAPBOUND', 'm_isBmpOnly definition', c.loc(st[0]), 'm_isBmpOnly = !<smp_subtable() result>', False)
     else:
-        run.violated('CMAPBOUND', 'm_isBmpOnly definition', c.where(), 'm_isBmpOnly is no longer exactly `!smp_cmap`')
+        run.violated('CMAPBOUND', 'm_isBmpOnly definition', c.where(), 'm_isBmpOnly is no longer exactly `!smp_subtable(cmap)`')
     d = fx.one('graphite2::CachedCmap::~CachedCmap')
-    _, nb = find_decl(d, 'numBlocks')
-    t = d.render(nb['init']) if nb else ''
-    if 'm_isBmpOnly' in t and '256' in t and '4352' in t:
+    ts = [d.render(e, resolve=True) for _, e in d.elements() if e['k'] == 'ConditionalOperator']
+    t = next((x for x in ts if 'm_isBmpOnly' in x and '256' in x and '4352' in x), None)
+    if t:
         run.held('CMAPBOUND', 'destructor block count', d.where(), t, False)
     else:
-        run.violated('CMAPBOUND', 'destructor block count', d.where(), 'destructor walks `%s` blocks, allocation uses m_isBmpOnly ? 0x100 : 0x1100' % t)
-
+        run.violated('CMAPBOUND', 'destructor block count', d.where(), 'destructor walks `%s` blocks, allocation uses m_isBmpOnly ? 0x100 : 0x1100' % ts)
 
 def run(run):
     fx = run.facts('Q0')
